@@ -47,6 +47,9 @@ from .common import calls
 from .common import kw
 from .common import match_sites
 from .common import must_flow
+from .common import _split_cond
+from .common import isinstance_classes
+from .common import path_conditions
 
 PURE_NUMBERS = frozenset({INT, FLOAT, DECIMAL})
 CONTAINERS = frozenset({OBJECT, ARRAY})
@@ -109,18 +112,33 @@ def check_equality_routines(ctx: Ctx, rr: RuleResult) -> None:
                 names_ = {x.id for x in ast.walk(n.args[1]) if isinstance(x, ast.Name)}
                 if names_ & {"Mapping", "dict", "Sequence", "list", "MutableMapping", "MutableSequence"}:
                     n_branch += 1
-        len_cmp = [
-            n for n in ast.walk(fn.node)
-            if isinstance(n, ast.Compare) and len(n.ops) == 1 and isinstance(n.ops[0], ast.Eq)
-            and all(isinstance(x, ast.Call) and callee_name(x) == "len" for x in (n.left, n.comparators[0]))
-            and {path_of(n.left.args[0]), path_of(n.comparators[0].args[0])} == set(params)  # type: ignore[union-attr]
-        ]
-        if n_branch and len(len_cmp) >= n_branch:
-            rr.ok(fn.loc(), f"{fn.qualname}: sizes compared in each of the {n_branch} container branches")
+        # wherever the two containers are walked together, their sizes are known to be equal
+        def size_events(t: ast.expr, branch: bool) -> List[str]:
+            if (
+                isinstance(t, ast.Compare) and len(t.ops) == 1 and isinstance(t.ops[0], (ast.Eq, ast.NotEq))
+                and all(isinstance(x, ast.Call) and callee_name(x) == "len" and len(x.args) == 1 for x in (t.left, t.comparators[0]))
+                and {path_of(t.left.args[0]), path_of(t.comparators[0].args[0])} == set(params)  # type: ignore[union-attr]
+                and isinstance(t.ops[0], ast.Eq) == branch
+            ):
+                return ["sizes_equal@"]
+            return []
+
+        flow = must_flow(fn.node, refine_events=size_events)
+        walks: List[Tuple[ast.AST, frozenset]] = []
+        for n in ast.walk(fn.node):
+            if isinstance(n, (ast.For, ast.AsyncFor)) and any(isinstance(x, ast.Name) and x.id in params for x in ast.walk(n.iter)):
+                walks.append((n, flow.pre.get(id(n)) or frozenset()))
+            elif isinstance(n, (ast.GeneratorExp, ast.ListComp, ast.SetComp, ast.DictComp)) and any(
+                isinstance(x, ast.Name) and x.id in params for x in ast.walk(n.generators[0].iter)
+            ):
+                walks.append((n, flow.at.get(id(n)) or frozenset()))
+        unsized = [n for n, st in walks if "sizes_equal@" not in st]
+        if n_branch and len(walks) >= n_branch and not unsized:
+            rr.ok(fn.loc(), f"{fn.qualname}: sizes known to be equal at each of the {len(walks)} container walks")
         else:
-            rr.bad(fn, fn.node, f"{fn.qualname} compares containers without comparing their sizes in every container "
+            rr.bad(fn, unsized[0] if unsized else fn.node, f"{fn.qualname} compares containers without comparing their sizes in every container "
                    "branch (zip / member iteration would ignore the extra elements)",
-                   construct=f"{fn.name}: {len(len_cmp)} size comparisons for {n_branch} container branches")
+                   construct=f"{fn.name}: {len(walks) - len(unsized)} sized walks for {n_branch} container branches")
         for c in calls(fn.node, "get"):
             if isinstance(c.func, ast.Attribute) and path_of(c.func.value) in params:
                 dflt = c.args[1] if len(c.args) > 1 else None
@@ -192,18 +210,34 @@ def r2_1(ctx: Ctx) -> RuleResult:
     eq = und.methods["__eq__"]
     rets = [n for n in ast.walk(eq.node) if isinstance(n, ast.Return)]
     ok = bool(rets)
+    other = eq.node.args.args[1].arg
+
+    def is_nothing_test(t: ast.expr) -> bool:
+        return (isinstance(t, ast.Compare) and len(t.ops) == 1 and isinstance(t.ops[0], ast.Is) and path_of(t.left) == other
+                and isinstance(t.comparators[0], ast.Name) and "UNDEFINED" in t.comparators[0].id)
+
+    def may_be_true(v: Optional[ast.expr], conds) -> bool:  # type: ignore[no-untyped-def]
+        """May `v` be true for an `other` that is neither Nothing nor an empty node list?"""
+        if v is None or (isinstance(v, ast.Constant) and not v.value):
+            return False
+        if any(is_nothing_test(t) and b for t, b in conds):
+            return False
+        is_nl = any((isinstance_classes(t) or ("", []))[1] == ["NodeList"] and b for t, b in conds)
+        if isinstance(v, ast.BoolOp) and isinstance(v.op, ast.Or):
+            return any(may_be_true(x, conds) for x in v.values)
+        if isinstance(v, ast.BoolOp) and isinstance(v.op, ast.And):
+            conds2 = list(conds)
+            for x in v.values[:-1]:
+                conds2.extend(_split_cond(x, True))
+            return may_be_true(v.values[-1], conds2)
+        if is_nothing_test(v):
+            return False
+        if isinstance(v, ast.Call) and callee_name(v) == "empty" and isinstance(v.func, ast.Attribute) and path_of(v.func.value) == other:
+            return not is_nl
+        return True
+
     for r in rets:
-        terms = r.value.values if isinstance(r.value, ast.BoolOp) and isinstance(r.value.op, ast.Or) else [r.value]
-        for t in terms:
-            if isinstance(t, ast.Compare) and len(t.ops) == 1 and isinstance(t.ops[0], ast.Is) and isinstance(
-                t.comparators[0], ast.Name
-            ) and "UNDEFINED" in t.comparators[0].id:
-                continue
-            if isinstance(t, ast.BoolOp) and isinstance(t.op, ast.And) and any(
-                isinstance(c, ast.Call) and callee_name(c) == "isinstance" and "NodeList" in ast.unparse(c)
-                for c in t.values
-            ):
-                continue
+        if may_be_true(r.value, path_conditions(eq.node, r)):
             ok = False
     if ok:
         rr.ok(eq.loc(), "_Undefined.__eq__: equal only to Nothing / an empty node list")
